@@ -77,26 +77,28 @@ def Parts.expVal (p : Parts) : Int :=
 def Parts.toDec (p : Parts) : Dec :=
   ⟨p.neg, digitsVal (p.ip ++ p.fp), p.expVal - (p.fp.length : Int)⟩
 
-/-- Split a decimal literal (the grammar of Rust's `f64::from_str` minus the `inf`/`nan` words):
-optional sign, digits, optional `.` and digits (at least one digit overall), optional `e|E`,
-optional sign, at least one digit.  `none` = not a decimal literal. -/
-def decParts (s : List Char) : Option Parts :=
-  let (neg, r) := stripSign s
-  let ip := r.takeWhile Char.isDigit
-  let r1 := r.dropWhile Char.isDigit
-  let (fp, r2) : List Char × List Char :=
-    match r1 with
-    | '.' :: t => (t.takeWhile Char.isDigit, t.dropWhile Char.isDigit)
-    | _ => ([], r1)
+/-- exponent stage of `decParts`: `r2` is what follows the mantissa. -/
+def decPartsExp (neg : Bool) (ip fp r2 : List Char) : Option Parts :=
   if ip.isEmpty && fp.isEmpty then none else
   match r2 with
   | [] => some ⟨neg, ip, fp, none⟩
   | c :: t =>
     if c == 'e' || c == 'E' then
-      let (eneg, ed) := stripSign t
-      if ed.isEmpty || !allDigits ed then none
-      else some ⟨neg, ip, fp, some (eneg, ed)⟩
+      if (stripSign t).2.isEmpty || !allDigits (stripSign t).2 then none
+      else some ⟨neg, ip, fp, some ((stripSign t).1, (stripSign t).2)⟩
     else none
+
+/-- fraction stage of `decParts`: `r1` is what follows the integer digits. -/
+def decPartsFrac (neg : Bool) (ip r1 : List Char) : Option Parts :=
+  match r1 with
+  | '.' :: t => decPartsExp neg ip (t.takeWhile Char.isDigit) (t.dropWhile Char.isDigit)
+  | _ => decPartsExp neg ip [] r1
+
+/-- Split a decimal literal (the grammar of Rust's `f64::from_str` minus the `inf`/`nan` words):
+optional sign, digits, optional `.` and digits (at least one digit overall), optional `e|E`,
+optional sign, at least one digit.  `none` = not a decimal literal. -/
+def decParts (s : List Char) : Option Parts :=
+  decPartsFrac (stripSign s).1 ((stripSign s).2.takeWhile Char.isDigit) ((stripSign s).2.dropWhile Char.isDigit)
 
 /-- Reference reader of a decimal literal: its exact value, `none` if not a decimal literal. -/
 def parseDec (s : List Char) : Option Dec := (decParts s).map Parts.toDec
@@ -133,11 +135,13 @@ def jsonExpEnd : List Char → Bool
       !d.isEmpty && allDigits d
     else false
 
-/-- RFC 8259 `number` (the grammar of `json::validate::is_valid_number`). -/
-def isJsonNumber (s : List Char) : Bool :=
-  let r := match s with
-    | '-' :: t => t
-    | t => t
+/-- skip one leading `-`. -/
+def dropMinus : List Char → List Char
+  | '-' :: t => t
+  | t => t
+
+/-- `int frac? exp?` then end of input. -/
+def isJsonBody (r : List Char) : Bool :=
   match jsonIntRest r with
   | none => false
   | some r1 =>
@@ -145,8 +149,62 @@ def isJsonNumber (s : List Char) : Bool :=
     | none => false
     | some r2 => jsonExpEnd r2
 
+/-- RFC 8259 `number` (the grammar of `json::validate::is_valid_number`). -/
+def isJsonNumber (s : List Char) : Bool := isJsonBody (dropMinus s)
+
 /-- a JSON number without exponent part: `-? int frac?` — the shape of Rust's `f64` `Display`. -/
 def isPlainJsonNumber (s : List Char) : Bool :=
   isJsonNumber s && !s.contains 'e' && !s.contains 'E'
+
+/-! ### The number grammar, generatively -/
+
+/-- A number literal given by its pieces: `sign` is `""`, `"-"` or `"+"`; `ip` the integer digits;
+`frac` the digits after a `.` if one is written; `exp` = (marker `e|E`, sign, digits). -/
+structure Lit where
+  sign : List Char
+  ip : List Char
+  frac : Option (List Char)
+  exp : Option (Char × List Char × List Char)
+
+def Lit.fracText (l : Lit) : List Char :=
+  match l.frac with
+  | some f => '.' :: f
+  | none => []
+
+def Lit.expText (l : Lit) : List Char :=
+  match l.exp with
+  | some (m, s, d) => m :: (s ++ d)
+  | none => []
+
+/-- the text of the literal. -/
+def Lit.text (l : Lit) : List Char := l.sign ++ (l.ip ++ (l.fracText ++ l.expText))
+
+def isSignStr (s : List Char) : Prop := s = [] ∨ s = ['-'] ∨ s = ['+']
+
+/-- The lenient grammar: JSON numbers plus leading `+`, redundant leading zeros and a leading `.`
+(`.5`): digits everywhere, a written fraction is non-empty, without a fraction the integer part is
+non-empty, a written exponent has at least one digit. -/
+structure Lit.wf (l : Lit) : Prop where
+  sign : isSignStr l.sign
+  ip : allDigits l.ip = true
+  frac : match l.frac with
+    | some f => allDigits f = true ∧ f ≠ []
+    | none => l.ip ≠ []
+  exp : match l.exp with
+    | some (m, s, d) => (m = 'e' ∨ m = 'E') ∧ isSignStr s ∧ allDigits d = true ∧ d ≠ []
+    | none => True
+
+/-- RFC 8259 strictness on top of `wf`: no `+`, integer part `0` or without leading zero. -/
+structure Lit.strict (l : Lit) : Prop extends l.wf where
+  noPlus : l.sign ≠ ['+']
+  int : l.ip = ['0'] ∨ ∃ c t, l.ip = c :: t ∧ c ≠ '0'
+
+/-- the value the pieces denote. -/
+def Lit.toDec (l : Lit) : Dec :=
+  ⟨l.sign == ['-'],
+   digitsVal (l.ip ++ l.frac.getD []),
+   (match l.exp with
+    | some (_, s, d) => if s == ['-'] then - (digitsVal d : Int) else (digitsVal d : Int)
+    | none => 0) - ((l.frac.getD []).length : Int)⟩
 
 end SV.Dec
